@@ -183,15 +183,17 @@ PARENTS = {
     "Index": "H.Index({c}, {c})",
     "Branch": "H.Branch(H.Count(), {c})",
 }
-CHILDREN = ["H.Sum(qy)", "H.Average(qy)", "H.Bin(2, 0.0, 2.0, qy)", "H.Bin(3, 0.0, 2.0, qy)", "H.Minimize(qy)", "H.Count()"]
+CHILDREN = ["H.Sum(qy)", "H.Average(qy)", "H.Bin(2, 0.0, 2.0, qy)", "H.Bin(3, 0.0, 2.0, qy)", "H.Minimize(qy)", "H.Count()",
+            "H.Select(qb, H.Bin(2, 0.0, 2.0, qy))", "H.Select(qb, H.Bin(3, 0.0, 2.0, qy))"]
+DEEPER = [CHILDREN[0], CHILDREN[2], CHILDREN[6], CHILDREN[7]]  # the last two differ only below what repr() shows
 
 
 def nested(pname, tmpl, op, what, timeout=60, nchild=6, variant="live"):
     """what = 'accept': the merge is accepted iff the children are identical in structure;
        what = 'unchanged': a rejected merge leaves both operands unchanged."""
-    CH = CHILDREN[:nchild]
+    CH = DEEPER if variant.startswith("deeper") else (["H.Count()", "H.Sum(qy)", "H.Bin(2, 0.0, 2.0, qy)"] if variant == "numpy-left" else CHILDREN[:nchild])
     mks = ", ".join("(lambda: %s)" % tmpl.format(c=c) for c in CH)
-    setup = SETUP + f"MKS = [{mks}]\nTYPES = {[c.split('(')[0] for c in CH]!r}\n"
+    setup = SETUP + f"MKS = [{mks}]\nTYPES = {[c.split('(')[0] for c in CH]!r}\nVARIANT = {variant!r}\n"
     if op == "add":
         do = "r = raises(lambda: a + b)"
     else:
@@ -218,7 +220,7 @@ if r is not None:
     if not jeq(J(b), jb): return "rejected-merge-changed-right-operand"
 """
     ra, rb, fa, fb = {"live": (False, False, True, True), "reloaded-left": (True, False, True, True),
-                      "reloaded-right": (False, True, True, True), "reloaded-empty-left": (True, False, False, True),
+                      "reloaded-right": (False, True, True, True), "reloaded-empty-left": (True, False, False, True), "deeper-reloaded": (True, True, True, True), "numpy-left": (False, False, True, True),
                       "empty-right": (False, False, True, False), "both-reloaded": (True, True, True, True)}[variant]
     body = f"""
 ra, rb, fa, fb = {ra}, {rb}, {fa}, {fb}
@@ -227,8 +229,18 @@ with NT():
     a = mka()
     b = mkb()
 d1 = (x1, 0.25, "a", 1.0); d2 = (x2, 0.75, sel(c2, "a", "b"), 1.0)
-if fa: a.fill(d1)
+if fa and VARIANT == "numpy-left":
+    import gen_shim_np as _g
+    with _g.NPM():
+        a.fill.numpy(_g.columns([d1]))
+elif fa: a.fill(d1)
 if fb: b.fill(d2)
+if VARIANT.startswith("deeper"):
+    with NT():   # history: compatible merges of the same shapes have happened before in this process
+        for mk in MKS:
+            u, v = mk(), mk()
+            u.fill((0.5, 0.25, "a", 1.0)); v.fill((1.5, 0.75, "b", 1.0))
+            w_ = u + v; u += v; ru = Factory.fromJson(J(u)); w2 = ru + Factory.fromJson(J(v))
 if ra: a = Factory.fromJson(J(a))   # immutable form (no value templates)
 if rb: b = Factory.fromJson(J(b))
 ja, jb = J(a), J(b)
@@ -263,7 +275,7 @@ def harnesses(tier):
             for what in ("accept", "unchanged"):
                 out.append(nested(pname, tmpl, op, what, timeout=90 if tier == "quick" else 300, nchild=4 if tier == "quick" else 6))
             sparse = pname.split(".")[0] in ("SparselyBin", "Categorize") and pname.endswith(".value")
-            variants = ["reloaded-left"] + (["reloaded-empty-left", "empty-right"] if sparse else [])
+            variants = ["reloaded-left"] + (["reloaded-empty-left", "empty-right", "deeper-reloaded"] if sparse else []) + (["numpy-left"] if pname.startswith(("Bin.value", "Select", "CentrallyBin", "Stack", "IrregularlyBin")) else [])
             if tier == "thorough":
                 variants += ["reloaded-right", "both-reloaded"]
             for v in variants:
